@@ -28,7 +28,7 @@ RULE = (
 )
 ASSUMPTIONS = ["constraints are drawn from planted routes or from returned routes, hence admissible"]
 BUDGET = {"quick": {"examples": 700, "deadline_s": 90}, "thorough": {"examples": 14000, "deadline_s": 900}}
-RELATIONS = ["add_constraint", "add_met_constraint", "ignore_equiv_scale0", "declare_existing_source_sink", "extra_start_end", "extra_ignore", "length_coverage"]
+RELATIONS = ["add_constraint", "add_met_constraint", "ignore_equiv_scale0", "declare_existing_source_sink", "extra_start_end", "extra_ignore", "length_coverage", "length_coverage"]
 INEXACT = ("kLeastAbsErrors", "kLeastAbsErrorsCycles", "kMinPathError", "kMinPathErrorCycles")
 
 
@@ -42,9 +42,9 @@ def strategy_(draw, tier):
     elif rel in ("declare_existing_source_sink", "extra_start_end"):
         classes = sorted(gen.HAS_STARTS_ENDS)
     elif rel == "length_coverage":
-        classes = ["kFlowDecomp", "MinFlowDecomp", "kLeastAbsErrors", "kMinPathError", "kPathCover", "MinPathCover"]
+        classes = ["kPathCover", "MinPathCover", "kFlowDecomp", "MinFlowDecomp", "kLeastAbsErrors", "kMinPathError", "kPathCover", "MinPathCover"]
     lc = rel == "length_coverage"
-    case = draw(gen.model_cases(classes=classes, max_nodes=6 if big else 5, p_opts=0, p_constr=1 if lc else 3, p_ignore=5, p_se=5, p_node=0 if lc else 5, k_slack=1))
+    case = draw(gen.model_cases(classes=classes, max_nodes=6 if big else 5, p_opts=0, p_constr=1 if lc else 3, p_ignore=5, p_se=5, p_node=0 if lc else 5, k_slack=1, p_len=1 if lc else 5, p_wild=3 if lc else 0))
     case["relation"] = rel
     case["pick"] = draw(st.lists(st.integers(0, 30), min_size=6, max_size=6))
     return case
